@@ -4,26 +4,52 @@
 
 package cluster
 
-import "github.com/lni/dragonboat/v4"
+import (
+	"encoding/json"
+
+	"github.com/hashicorp/memberlist"
+	"github.com/lni/dragonboat/v4"
+	"go.uber.org/zap"
+)
 
 // VerifNode is a gossip participant without a network: the real shardView behind the real
 // memberlist delegate. Verification hook, compiled only with the verif build tag.
 type VerifNode struct {
 	d     *delegate
+	c     *Cluster
 	local []dragonboat.ShardInfo
 }
 
 func NewVerifNode() *VerifNode {
 	n := &VerifNode{}
-	n.d = &delegate{shardView: newView(), infoF: func() Info { return Info{ShardInfoList: n.local} }}
+	view := newView()
+	infoF := func() Info { return Info{ShardInfoList: n.local} }
+	n.d = &delegate{shardView: view, infoF: infoF}
+	// the same view behind the real memberlist event delegate (the Cluster itself), without a network
+	n.c = &Cluster{shardView: view, infoF: infoF, log: zap.NewNop().Sugar(), not: make(chan struct{}, 1)}
 	return n
+}
+
+// MemberEvent delivers a memberlist event ("join", "leave", "update") about the member with the
+// given node id to the real event delegate.
+func (n *VerifNode) MemberEvent(kind string, nodeID uint64) {
+	meta, _ := json.Marshal(&NodeMeta{NodeID: nodeID})
+	node := &memberlist.Node{Name: "verif", Meta: meta}
+	switch kind {
+	case "join":
+		n.c.NotifyJoin(node)
+	case "leave":
+		n.c.NotifyLeave(node)
+	case "update":
+		n.c.NotifyUpdate(node)
+	}
 }
 
 // SetLocal sets what the node's own Raft host reports.
 func (n *VerifNode) SetLocal(info []dragonboat.ShardInfo) { n.local = info }
 
 // Notify merges the local Raft information as Cluster.Notify does.
-func (n *VerifNode) Notify() { n.d.shardView.update(toShardViewList(n.d.infoF().ShardInfoList)) }
+func (n *VerifNode) Notify() { n.c.Notify() }
 
 // UpdateView feeds updates straight into the view.
 func (n *VerifNode) UpdateView(u []dragonboat.ShardView) { n.d.shardView.update(u) }
